@@ -98,6 +98,15 @@ def atoms(test: ast.AST, pol: bool = True) -> list:
     if isinstance(test, ast.UnaryOp) and isinstance(test.op, ast.Not):
         return atoms(test.operand, not pol)
     if isinstance(test, ast.BoolOp):
+        # neutral constants: `a or False`, `a and True` say what `a` says
+        neutral = isinstance(test.op, ast.And)
+        vals = [v for v in test.values if not (isinstance(v, ast.Constant) and isinstance(v.value, bool) and v.value is neutral)]
+        if len(vals) < len(test.values):
+            if not vals:
+                return [] if neutral == pol else ["false()"]
+            if len(vals) == 1:
+                return atoms(vals[0], pol)
+            test = ast.BoolOp(op=test.op, values=vals)
         split = (isinstance(test.op, ast.And) and pol) or (isinstance(test.op, ast.Or) and not pol)
         if split:
             out = []
